@@ -201,13 +201,13 @@ PROPS = {
                       'the output placement ("below every node but the root some key carries no further output": tix / split_ok / ftight) '
                       'through find_common_prefix_and_set_output, compile_from, compile, insert_output, insert and the map front ends into '
                       'fin_post; unit compose (thm_built_canon) proves canon for every such file whose values strictly increase with its keys.',
-        'level_note': 'Node accessors are assumed contracts proved in unit decode (CONTRACT-OF); the hoisted take_while(..).last() expression is '
-                      'an assumed contract (Kani K-scan: window 8 quick / 40 thorough: bounded). The readers\' fdom(file) is the shared definition for which unit compose '
+        'level_note': 'Node accessors are assumed contracts proved in unit decode (CONTRACT-OF); the closure of take_while(..).last() is verified where it '
+                      'stands, the adapter chain over the crate\'s Transitions iterator is a std-level assumption stated for any predicate (Kani K-scan runs the real expression: window 8 quick / 40 thorough). The readers\' fdom(file) is the shared definition for which unit compose '
                       'proves the premise (thm_built_file_ok). A raw builder that mixes insert with a repeated '
                       'add of the same key may move a value off the path (the model stays right, the placement is not kept): such histories are '
                       'outside the premise (ti is kept by insert and the map front ends only).',
         'explanation': '',
-        'assumptions': ['K-scan getkey_take_while_last is a bounded stand-in for fan-outs beyond its window'],
+        'assumptions': ['std: take_while(p).last() over the crate\'s Transitions iterator (assumed for any predicate; the predicate itself is verified in place); K-scan getkey_take_while_last cross-checks the real expression within its window'],
     },
     'C06': {
         'units': ['builder'],
